@@ -23,9 +23,13 @@ Section StoreInv.
                         /\ sg = seg_of cfg (nextv (mwal m) - 1)
     end.
 
+  (* third clause: a handle that remembers pre-created fan-out directories finds the parent
+     directory of every WELL-FORMED hash (32 bytes, each < 256: finitely many directories, so the
+     clause is satisfiable -- PreCreate.open_fresh_disk_pre_Inv; put uses it for H content only) *)
   Definition dirs_ok (m : mem) (s : fs) : Prop :=
     has_dir s [s_staging] = true /\ has_dir s [s_cas] = true /\
-    (mpre m = true -> forall h, length h = 32%nat -> parent_ok s (cas_path h) = true).
+    (mpre m = true -> forall h, length h = 32%nat -> Forall (fun x => x < 256) h ->
+                        parent_ok s (cas_path h) = true).
 
   (* core invariant: holds after every fault-free operation, also when garbage is around *)
   Record Live0 (m : mem) (s : fs) (sg : smap bytes) : Prop := mkLive0 {
